@@ -744,3 +744,108 @@ End D2.
 (* a concrete planar neighbourhood satisfies the hypotheses of [sv_term2_meaning] *)
 Example d2_instance : tr_det2 [0; 0]%Z [[3; 1]; [1; 4]; [-2; 2]]%Z = (348, 29056)%Z /\ (4 * 29056 <= 348 * 348)%Z.
 Proof. split; [vm_compute; reflexivity|lia]. Qed.
+
+(* ================================================================================================ *)
+(* I. the exact ellipsoid count (every dimension) depends on coordinate differences and on the neighbour SET only:
+      with it in place of [ins], translation and sample-order invariance need a hypothesis on the singular values only *)
+Lemma vsub_shift t : forall p r, (length p <= length t)%nat -> (length r <= length t)%nat -> vsub (shift t p) (shift t r) = vsub p r.
+Proof.
+  unfold vsub, shift. induction t as [|c t IH]; intros [|a p] [|b r] Hp Hr; cbn [length combine map] in *; try lia; try reflexivity.
+  f_equal; [cbn [fst snd]; lia|apply IH; lia].
+Qed.
+
+Lemma centred_shift t (nb : list point) d : (forall x, In x nb -> (length x <= length t)%nat) -> centred (map (shift t) nb) d = centred nb d.
+Proof.
+  intros L. unfold centred. rewrite map_map. apply map_ext_in. intros p Hp. f_equal. rewrite map_map. apply map_ext_in.
+  intros r Hr. apply vsub_shift; apply L; assumption.
+Qed.
+
+Lemma ell_value_shift d t (p : point) (l : list point) (q : point) : (forall x, In x (p :: l) -> (length x <= length t)%nat) -> (length q <= length t)%nat ->
+  ell_value d (shift t p) (map (shift t) l) (shift t q) = ell_value d p l q.
+Proof.
+  intros L Lq. unfold ell_value. cbv zeta. change (shift t p :: map (shift t) l) with (map (shift t) (p :: l)).
+  rewrite (centred_shift t (p :: l) d L), vsub_shift, map_length; [reflexivity|exact Lq|apply L; left; reflexivity].
+Qed.
+
+Lemma ins_exact_shift d t (p : point) (l : list point) : (forall x, In x (p :: l) -> (length x <= length t)%nat) ->
+  ins_exact d (shift t p) (map (shift t) l) = ins_exact d p l.
+Proof.
+  intros L. unfold ins_exact. rewrite map_length. destruct (Nat.ltb (length l) d); [reflexivity|].
+  assert (G : forall l', incl l' l ->
+    fold_right (fun q acc => match acc, ell_value d (shift t p) (map (shift t) l) q with
+                             | Some n, Some v => Some (if Qle_bool v 1 then n + 1 else n)%Z | _, _ => None end) (Some 0%Z) (map (shift t) l')
+    = fold_right (fun q acc => match acc, ell_value d p l q with
+                               | Some n, Some v => Some (if Qle_bool v 1 then n + 1 else n)%Z | _, _ => None end) (Some 0%Z) l').
+  { induction l' as [|q l' IH]; intros I; cbn [map fold_right]; [reflexivity|].
+    rewrite IH by (intros x Hx; apply I; right; exact Hx).
+    rewrite ell_value_shift; [reflexivity|exact L|apply L; right; apply I; left; reflexivity]. }
+  apply G, incl_refl.
+Qed.
+
+Theorem shift_invariant_exact_count sv2 D d k t pts :
+  Forall (fun p => length p <= length t)%nat pts ->
+  (forall p, In p pts -> sv2 D (shift t p) (map (shift t) (nbrs k pts p)) = sv2 D p (nbrs k pts p)) ->
+  geo_entropy_expr sv2 (ins_x d) D d k (map (shift t) pts) = geo_entropy_expr sv2 (ins_x d) D d k pts.
+Proof.
+  intros L Hsv. apply shift_invariant; [exact L| |exact Hsv].
+  intros p Hp. unfold ins_x. rewrite ins_exact_shift; [reflexivity|]. rewrite Forall_forall in L.
+  intros x [<-|Hx]; [apply L; exact Hp|apply L; apply (nbrs_incl k pts p); exact Hx].
+Qed.
+
+Lemma vadd_comm : forall a b, vadd a b = vadd b a.
+Proof. unfold vadd. induction a as [|x a IH]; intros [|y b]; cbn [combine map]; try reflexivity. f_equal; [cbn [fst snd]; lia|apply IH]. Qed.
+Lemma vadd_assoc : forall a b c, vadd a (vadd b c) = vadd (vadd a b) c.
+Proof.
+  unfold vadd. induction a as [|x a IH]; intros [|y b] [|z c]; cbn [combine map]; try reflexivity.
+  f_equal; [cbn [fst snd]; lia|apply IH].
+Qed.
+Lemma fold_vadd_perm z l l' : Permutation l l' -> fold_right vadd z l = fold_right vadd z l'.
+Proof.
+  induction 1 as [|x l l' _ IH|x y l|l l' l'' _ IH1 _ IH2]; cbn [fold_right]; [reflexivity|congruence| |congruence].
+  rewrite !vadd_assoc, (vadd_comm y x). reflexivity.
+Qed.
+
+Lemma gram_centred_perm (nb nb' : list point) d : Permutation nb nb' -> gram (centred nb d) d = gram (centred nb' d) d.
+Proof.
+  intros P. unfold gram. apply map_ext. intros i. apply map_ext. intros j. apply zsum_perm. apply Permutation_map.
+  unfold centred.
+  rewrite (map_ext (fun p => fold_right vadd (repeat 0%Z d) (map (vsub p) nb)) (fun p => fold_right vadd (repeat 0%Z d) (map (vsub p) nb')))
+    by (intros p; apply fold_vadd_perm, Permutation_map, P).
+  apply Permutation_map, P.
+Qed.
+
+Lemma ell_value_perm d (p : point) (l l' : list point) (q : point) : Permutation l l' -> ell_value d p l q = ell_value d p l' q.
+Proof.
+  intros P. unfold ell_value. cbv zeta. rewrite (gram_centred_perm (p :: l) (p :: l') d) by (constructor; exact P).
+  cbn [length]. rewrite (Permutation_length P). reflexivity.
+Qed.
+
+Lemma count_fold_perm (e : point -> option Q) l l' : Permutation l l' ->
+  fold_right (fun q acc => match acc, e q with Some n, Some v => Some (if Qle_bool v 1 then n + 1 else n)%Z | _, _ => None end) (Some 0%Z) l
+  = fold_right (fun q acc => match acc, e q with Some n, Some v => Some (if Qle_bool v 1 then n + 1 else n)%Z | _, _ => None end) (Some 0%Z) l'.
+Proof.
+  induction 1 as [|x l l' _ IH|x y l|l l' l'' _ IH1 _ IH2]; cbn [fold_right]; [reflexivity|rewrite IH; reflexivity| |rewrite IH1; exact IH2].
+  destruct (fold_right _ _ l) as [n|]; destruct (e x) as [vx|], (e y) as [vy|]; try reflexivity.
+  destruct (Qle_bool vx 1), (Qle_bool vy 1); f_equal; lia.
+Qed.
+
+Lemma count_fold_ext (e e' : point -> option Q) l : (forall q, e q = e' q) ->
+  fold_right (fun q acc => match acc, e q with Some n, Some v => Some (if Qle_bool v 1 then n + 1 else n)%Z | _, _ => None end) (Some 0%Z) l
+  = fold_right (fun q acc => match acc, e' q with Some n, Some v => Some (if Qle_bool v 1 then n + 1 else n)%Z | _, _ => None end) (Some 0%Z) l.
+Proof. intros E. induction l as [|q r IH]; cbn [fold_right]; [reflexivity|]. rewrite IH, E. reflexivity. Qed.
+
+Theorem exact_count_order_free d D (p : point) (l l' : list point) : Permutation l l' -> ins_x d D p l = ins_x d D p l'.
+Proof.
+  intros P. unfold ins_x, ins_exact. rewrite (Permutation_length P). destruct (Nat.ltb (length l') d); [reflexivity|].
+  rewrite (count_fold_perm (ell_value d p l) l l' P).
+  rewrite (count_fold_ext (ell_value d p l) (ell_value d p l') l') by (intros q; apply ell_value_perm; exact P).
+  reflexivity.
+Qed.
+
+Theorem row_perm_invariant_exact_count sv2 d :
+  (forall D p l l', Permutation l l' -> sv2 D p l = sv2 D p l') ->
+  forall D k pts pts', Permutation pts pts' ->
+  evalR [] (geo_entropy_expr sv2 (ins_x d) D d k pts) = evalR [] (geo_entropy_expr sv2 (ins_x d) D d k pts').
+Proof.
+  intros Hsv D k pts pts' P. apply row_perm_invariant; [|exact P]. intros D0 p l l' P0. split; [apply Hsv; exact P0|apply exact_count_order_free; exact P0].
+Qed.
